@@ -1,6 +1,17 @@
 """C11 Index buffer merging is equivalent to applying changes in order (db19/index/ixbuf)
 
-Mutation testing (scratch worktree, VERIF_REPO, quick tier, seed 1) -- see bottom of file.
+Mutation testing (scratch worktree /tmp/ixs-mut, VERIF_REPO, quick tier, seed 1; "tests" = go test
+./db19/index/ixbuf/... with the mutant):
+  caught by this check, package tests green:
+    rangeact-ge        RangeActivity fast path `end > lastKey` -> `>=`            VIOLATION at a RangeAct event
+    combine-oldoff     Combine(update,update) returns the NEW offset as oldoff   VIOLATION at a Fill event (olds)
+    upddel-keeps-old   Combine(update,delete) keeps the old offset in the delete VIOLATION at a Content event
+  killed by the package's own tests already (so not usable as evidence for this check; all of them are
+  also rejected by the trace spec when the tests are ignored -- not re-run for the record):
+    passthru-prev (pass-through although the chunk updates the previous output slot), passthru-ge
+    (pass-through with lastkey == other first key), tie-order (`key2 <= key`), size-acct (m.size not
+    advanced for passed chunks), combine-adddel (add+delete keeps a tombstone), combine-deladd
+    (delete+add -> add), merge-keep-zero (combined-away slot kept)
 """
 
 META = {
